@@ -22,7 +22,7 @@ fn has_global(e: &Expression) -> bool {
 }
 
 pub fn run(ctx: &Ctx, rep: &mut Report) {
-    let n = ctx.pick(5000, 300_000);
+    let n = ctx.pick(5000, 4_000_000);
     par_cases(ctx, "insert", n, rep, |i, rep| {
         let mut r = Rng::for_case(ctx.seed, "insert", i);
         let case = format!("insert:{}", i);
@@ -117,7 +117,7 @@ pub fn run(ctx: &Ctx, rep: &mut Report) {
                                 );
                             } else {
                                 rep.count("thread_argument_checked");
-                                if rep.samples.len() < 5 && non_leading {
+                                if rep.samples.is_empty() || (rep.samples.len() < 5 && non_leading) {
                                     rep.sample(J::obj(vec![("input", J::s(&text)), ("options", J::s(format!("{:?}", opts))), ("scan_thread_argument", J::s(format!("{:?}", got)))]));
                                 }
                             }
